@@ -46,6 +46,8 @@ type Engine struct {
 	// Shrink minimises a failing plan; fails(plan) re-executes a candidate and
 	// says whether the same violation class persists.
 	Shrink func(plan []byte, v Violation, fails func(cand []byte) *Violation, budget int) []byte
+	// Describe summarises the shape of a (minimised) plan for the replay file.
+	Describe func(plan []byte) string
 	// CasesQuick is the number of plans of the quick tier.
 	CasesQuick int
 	// InProcessShrink: candidates may be executed inside the driver process.
